@@ -160,6 +160,22 @@ func (g *RGen) genCampaign() ROp {
 	if g.chance(0.18) || signer < 0 || signer >= int64(len(g.c.Acc)) {
 		signer = g.user()
 	}
+	// creation on a promoter's behalf under a live create-campaign grant
+	var underGrant *big.Int
+	if g.chance(0.45) {
+		for _, gr := range g.snap.Grants {
+			isProm := false
+			for _, a := range pa {
+				isProm = isProm || a == gr.Granter
+			}
+			if gr.Kind == 1 && isProm && gr.Grantee >= 0 && gr.Grantee < int64(len(g.c.Acc)) && g.chance(0.6) {
+				prom, signer = gr.Granter, gr.Grantee
+				underGrant = gr.Limit
+				g.stats["campaign_under_grant"]++
+				break
+			}
+		}
+	}
 	o := ROp{Kind: "CCREATE", Signer: signer, Tk: g.ticket(), Prom: prom, Active: !g.chance(0.06)}
 	o.UID = g.nextCamp
 	switch {
@@ -340,6 +356,12 @@ func (g *RGen) genCampaign() ROp {
 		total = 0
 	}
 	o.Total = bigp(total)
+	if underGrant != nil && underGrant.IsInt64() && total > underGrant.Int64() && g.chance(0.8) {
+		o.Total = new(big.Int).Set(underGrant) // within the grant (maybe below one reward: then the payload is rejected)
+		if base > 0 && underGrant.Int64() >= base {
+			o.Total = bigp(base * (underGrant.Int64() / base))
+		}
+	}
 	return o
 }
 
@@ -355,6 +377,10 @@ func (g *RGen) genUpdate() ROp {
 	signer := k.Promoter
 	if g.chance(0.25) || signer < 0 || signer >= int64(len(g.c.Acc)) {
 		signer = g.user()
+	}
+	if k.Creator != k.Promoter && k.Creator >= 0 && k.Creator < int64(len(g.c.Acc)) && g.chance(0.3) {
+		signer = k.Creator
+		g.stats["update_by_delegated_creator"]++
 	}
 	now := g.now()
 	end := pick(g.r, []int64{now, now + 1, now + 90, now + 3000, int64(k.End), int64(k.End)})
@@ -378,9 +404,20 @@ func (g *RGen) genWithdraw() ROp {
 		return g.genCampaign()
 	}
 	k := pick(g.r, cs)
+	// prefer a campaign that somebody else created on the promoter's behalf: its creator is not its owner
+	for _, c := range cs {
+		if c.Creator != c.Promoter && g.chance(0.7) {
+			k = c
+			break
+		}
+	}
 	signer := k.Promoter
 	if g.chance(0.3) || signer < 0 || signer >= int64(len(g.c.Acc)) {
 		signer = g.user()
+	}
+	if k.Creator != k.Promoter && k.Creator >= 0 && k.Creator < int64(len(g.c.Acc)) && g.chance(0.6) {
+		signer = k.Creator
+		g.stats["withdraw_by_delegated_creator"]++
 	}
 	prom := k.Promoter
 	if g.chance(0.04) {
